@@ -83,6 +83,7 @@ class Proxy(object):
     """ops: list of tuples
          ('flip', dir, raw_offset, mask)
          ('drop'|'dup'|'swap', dir, msg_index)
+         ('inject', dir, msg_index, kind)      a record of INJECT[kind] in front of that message
          ('rw', dir, msg_index, rewrite_name)
     """
 
@@ -152,6 +153,7 @@ class Proxy(object):
         if d == S2C and m[0] == 2 and sh_is_tls13(m):
             self.tls13 = True
         outs = [m]
+        pre = b''
         for op in self.ops:
             if op[1] != d:
                 continue
@@ -164,6 +166,9 @@ class Proxy(object):
                 self.held[d] = None
             elif op[2] != i:
                 continue
+            elif op[0] == 'inject':
+                pre += INJECT[op[3]](ver)
+                self.applied.append(op)
             elif op[0] == 'drop':
                 outs = []
                 self.applied.append(op)
@@ -183,11 +188,25 @@ class Proxy(object):
                         x = y
                     new.append(x)
                 outs = new
-        res = b''
+        res = pre
         for x in outs:
             self.msgs_out[d].append(x)
             res += mk_records(22, ver, x)
         return res
+
+
+# records an attacker can insert in front of a plaintext handshake message
+INJECT = {
+    'warning_alert': lambda ver: mk_records(21, ver, bytes([1, 112])),            # unrecognized_name, warning
+    'warning_close': lambda ver: mk_records(21, ver, bytes([1, 0])),              # close_notify at warning level
+    'warning_no_reneg': lambda ver: mk_records(21, ver, bytes([1, 100])),
+    'ccs': lambda ver: mk_records(20, ver, b'\x01'),
+    'empty_handshake': lambda ver: mk_records(22, ver, b''),
+    'empty_appdata': lambda ver: mk_records(23, ver, b''),
+    'hello_request': lambda ver: mk_records(22, ver, bytes([0, 0, 0, 0])),
+    'unknown_hs_type': lambda ver: mk_records(22, ver, bytes([99, 0, 0, 1, 7])),
+    'heartbeat': lambda ver: mk_records(24, ver, bytes([1, 0, 0]) + bytes(16)),
+}
 
 
 # ------------------------------------------------------------------------------------------
@@ -576,6 +595,16 @@ def scenarios():
                                      pskConfigs=[(b'ident', b'\x11' * 32)]),
                               ss=_st((3, 1), (3, 4), keyShares=['secp384r1'], eccCurves=['secp384r1'],
                                      dhGroups=[], pskConfigs=[(b'ident', b'\x11' * 32)]))
+    # client certificate authentication (Certificate, ClientKeyExchange, CertificateVerify in the client's flight)
+    S['tls12-clientauth'] = dict(kind='cert', cred='rsa', cs=_st((3, 1), (3, 3)), ss=_st((3, 1), (3, 3)),
+                                 client_cred='client-rsa')
+    S['tls10-clientauth'] = dict(kind='cert', cred='rsa', cs=_st((3, 1), (3, 1)), ss=_st((3, 1), (3, 1)),
+                                 client_cred='client-rsa')
+    S['tls13-clientauth'] = dict(kind='cert', cred='rsa', cs=_st((3, 1), (3, 4), keyShares=['x25519']),
+                                 ss=_st((3, 1), (3, 4)), client_cred='client-ecdsa')
+    # full TLS 1.2 handshake in which the server issues a ticket (NewSessionTicket is sent in the clear)
+    S['tls12-ticket-issue'] = dict(kind='cert', cred='rsa', cs=_st((3, 1), (3, 3)),
+                                   ss=_st((3, 1), (3, 3), ticketKeys=[b'\x22' * 32], ticket_count=1))
     # resumption (first handshake honest and outside the proxy; the second is attacked)
     S['tls12-resume-id'] = dict(kind='cert', cred='rsa', cs=_st((3, 1), (3, 3)), ss=_st((3, 1), (3, 3)),
                                 resume='id')
@@ -627,6 +656,10 @@ def _kwargs(sc, cache):
     if kind == 'cert':
         chain, key = loop.creds(sc['cred'])
         skw.update(certChain=chain, privateKey=key)
+        if sc.get('client_cred'):
+            cchain, ckey = loop.creds(sc['client_cred'])
+            ckw.update(certChain=cchain, privateKey=ckey)
+            skw.update(reqCert=True)
     elif kind == 'srp':
         ckw.update(username=bytearray(b'test'), password=bytearray(b'password'))
         skw.update(verifierDB=_verifier_db())
